@@ -638,6 +638,126 @@ func vC17GenTables(r *vRng) vSx {
 	return vL(vI(2), set.tb.sx(), vLs(segs), vI(vC17Fin(r)), vC17Rd(r), vI(r.pickInt(0, 0, 1)))
 }
 
+// ---- very large documents, run-length encoded: (3 ((kind (xpattern count)...) ...) seglen rd) ----
+type vC17Rle struct {
+	pat []byte
+	n   int
+}
+
+func vC17RleSx(kind int, runs ...vC17Rle) vSx {
+	out := []vSx{vI(kind)}
+	for _, r := range runs {
+		out = append(out, vL(vB(r.pat), vI(r.n)))
+	}
+	return vLs(out)
+}
+
+func vC17GenHuge(r *vRng, shape, size int) vSx {
+	one := func(s string) vC17Rle { return vC17Rle{[]byte(s), 1} }
+	many := func(s string) vC17Rle { return vC17Rle{[]byte(s), size/len(s) + 1} }
+	var items []vSx
+	switch shape {
+	case 0: // one string literal
+		items = []vSx{vC17RleSx(0, one("{")), vC17RleSx(1, one("k")), vC17RleSx(0, one(":")), vC17RleSx(1, many("ab\\\"/*'x//")), vC17RleSx(0, one("}"))}
+	case 1: // one block comment
+		items = []vSx{vC17RleSx(0, one("[1,")), vC17RleSx(3, many("c \n/\"'//x")), vC17RleSx(0, one("2]"))}
+	case 2: // one line comment
+		items = []vSx{vC17RleSx(0, one("[1,")), vC17RleSx(2, many("c */\"'x /*")), vC17RleSx(0, one("2]"))}
+	case 3: // one marker-free stretch: an array of numbers
+		items = []vSx{vC17RleSx(0, one("["), many("12345, "), one("0]"))}
+	default: // about `size` bytes of small tokens
+		items = append(items, vC17RleSx(0, one("[")))
+		for tot := 0; tot < size; tot += 100 {
+			items = append(items, vC17RleSx(1, vC17Rle{[]byte("a\\\"b/*"), 5}), vC17RleSx(2, vC17Rle{[]byte(" c \"x' */"), 4}), vC17RleSx(0, one(",")),
+				vC17RleSx(3, vC17Rle{[]byte("//'\" "), 3}))
+		}
+		items = append(items, vC17RleSx(1, one("z")), vC17RleSx(0, one("]")))
+	}
+	seg := r.pickInt(0, 1<<20, 1000003, 1<<18)
+	return vL(vI(3), vLs(items), vI(seg), vI(r.pickInt(4096, 65536, 1<<20)))
+}
+
+func vC17RunHuge(k *vKit, c vSx) {
+	bad := vL(vZ(-1))
+	if len(c.l) != 4 {
+		k.record(c, bad, false)
+		return
+	}
+	var dec, plain []byte
+	nComments := 0
+	for _, it := range c.l[1].l {
+		var body []byte
+		for _, run := range it.l[1:] {
+			body = append(body, bytes.Repeat(run.l[0].b, run.l[1].int())...)
+		}
+		d, p := vC17Render([]vC17Item{{it.l[0].int(), body}}, nil, false)
+		dec, plain = append(dec, d...), append(plain, p...)
+		if it.l[0].int() >= 2 {
+			nComments++
+		}
+	}
+	var segs [][]byte
+	if n := c.l[2].int(); n > 0 {
+		for rest := dec; len(rest) > 0; {
+			m := n
+			if m > len(rest) {
+				m = len(rest)
+			}
+			segs, rest = append(segs, rest[:m]), rest[m:]
+		}
+	} else {
+		segs = [][]byte{dec}
+	}
+	cons := vC17Cons{[]int{c.l[3].int()}, len(dec) + 2, nil}
+	out, code, panicked := vC17Drain(segs, 0, cons, false)
+	sum := uint64(0)
+	for _, b := range out {
+		sum += uint64(b)
+	}
+	var obs vSx
+	switch {
+	case panicked:
+		obs = vPanicObs()
+	case code == 0:
+		obs = vOk(vI(len(out)), vU(sum))
+	default:
+		obs = vL(vZ(1), vI(code), vI(len(out)), vU(sum))
+	}
+	idx := k.record(c, obs, nComments > 0)
+	k.count("kind", "3")
+	k.count("input-size", vSizeBucket(len(dec)))
+	k.count("huge-megabytes", fmt.Sprint(len(dec)>>20))
+	fail := func(oracle, detail string) { k.fail(idx, c.size(), oracle, "", detail) }
+	if panicked {
+		fail("no-panic", "reader panicked on a large document")
+		return
+	}
+	if code != 0 || !bytes.Equal(out, plain) {
+		name := "strip-bytes"
+		if nComments == 0 {
+			name = "identity"
+		}
+		at := 0
+		for at < len(out) && at < len(plain) && out[at] == plain[at] {
+			at++
+		}
+		fail(name, fmt.Sprintf("a %d byte document (undecorated %d bytes) came out with %d bytes, class %d, first difference at byte %d", len(dec), len(plain), len(out), code, at))
+	}
+	var want, got interface{}
+	if err := stdjson.Unmarshal(plain, &want); err != nil {
+		k.count("plain-not-json", "1")
+		return
+	}
+	var err error
+	if msg := vPanicText(func() { err = Unmarshal(&vC17Src{segs: segs, fin: 0}, &got) }); msg != "" {
+		fail("no-panic", "Unmarshal panicked on a large document: "+msg)
+	} else if err != nil {
+		fail("unmarshal-equal", fmt.Sprintf("Unmarshal of a %d byte document failed: %v; encoding/json decodes the undecorated text", len(dec), err))
+	} else if !reflect.DeepEqual(got, want) {
+		fail("unmarshal-equal", fmt.Sprintf("Unmarshal of a %d byte document differs from encoding/json on the undecorated text", len(dec)))
+	}
+}
+
 // ---- one case ----
 func vC17Run(k *vKit, c vSx) {
 	bad := vL(vZ(-1))
@@ -833,7 +953,15 @@ func vC17Run(k *vKit, c vSx) {
 func TestVerifC17(t *testing.T) {
 	k := vNewKit(t, "C17")
 	defer k.close()
-	run := func(c vSx) { k.safely(c, func() { vC17Run(k, c) }) }
+	run := func(c vSx) {
+		k.safely(c, func() {
+			if c.isList() && len(c.l) > 0 && c.l[0].isInt() && c.l[0].int() == 3 {
+				vC17RunHuge(k, c)
+			} else {
+				vC17Run(k, c)
+			}
+		})
+	}
 	if k.replay != nil {
 		run(*k.replay)
 		return
@@ -850,6 +978,14 @@ func TestVerifC17(t *testing.T) {
 			run(vC17GenTables(k.rnd))
 		default:
 			run(vC17GenDoc(k.rnd))
+		}
+	}
+	// tokens of megabytes, and a megabyte of small tokens
+	for shape := 0; shape < 5; shape++ {
+		run(vC17GenHuge(k.rnd, shape, 1500000+k.rnd.intn(100000)))
+		if k.thorough() {
+			run(vC17GenHuge(k.rnd, shape, k.rnd.rng(4, 8)<<20))
+			run(vC17GenHuge(k.rnd, shape, 1<<20))
 		}
 	}
 	nb := k.N(10, 80)
